@@ -13,10 +13,12 @@ def run(ctx):
     # non-vacuity of the lock semantics: an order inversion and a recursive read lock with a writer deadlock, a gated inversion does not
     for name, exp in [("inversion", "violates:NoDeadlock"), ("recursive_read", "violates:NoDeadlock"), ("gated", "ok")]:
         ctx.lockmc(os.path.join(samples, name + ".json"), 2, expect=exp, label="sample " + name)
-    out, res = ctx.go_test("c16", "^TestC16$", timeout=1700)
+    out, res = ctx.go_test("c16", "^TestC16$", timeout=1700, overlay=True)
     if res is None:
         return
     progs, problems, stats = lockprogs.extract(os.path.join(out, "locks.ndjson"))
+    if stats["lock_events"] < 1000:
+        ctx.undecided.append("the run recorded %d lock events: the instrumented internal/sync was not built in" % stats["lock_events"])
     for k in ("lock_events", "stretches", "nested", "instances", "sites", "max_depth"):
         ctx.counters["locks_" + k] = stats[k]
     ctx.counters["lock_programs"] = len(progs)
@@ -61,7 +63,7 @@ def run(ctx):
     if rres is not None:
         ctx.validate("RetryQueueTrace", "RetryQueueTrace.cfg", os.path.join(rout, "trace.ndjson"), sigprefix="c16:retryqueue", timeout=900)
     # the same generated programs under the race detector (side oracle: not decided by the specification)
-    ctx.go_test("c16", "^TestC16$", timeout=1700, race=True, name="race")
+    ctx.go_test("c16", "^TestC16$", timeout=1700, race=True, name="race", overlay=True)
     ctx.assumptions += [
         "the lock programs are what the goroutines did in the recorded runs; TLC explores every interleaving of each pair, assuming a program's sequence of lock calls does not itself depend on the interleaving",
         "two programs of one scenario are assumed able to run at the same time (no happens-before pruning): a reported pair is a potential deadlock",
@@ -71,7 +73,7 @@ def run(ctx):
 
 
 META = {
-    "text": "Every mutex of the library is instrumented under the verif tag (internal/sync); randomly generated concurrent programs (2..16 goroutines, 34 kinds of operations over server, namespace, socket, manager and adapter, operations issued from event, acknowledgement, connection and disconnect handlers too, GOMAXPROCS 1/2/4/16, injected yields) run against a real server with real clients under a watchdog. The recorded Lock/RLock/Unlock/RUnlock sequences of every goroutine stretch that held two locks at once become the programs of Locks.tla; TLC runs every pair of programs of a scenario (also a program against itself) through all interleavings under sync.Mutex / sync.RWMutex semantics with writer preference and checks that somebody can always move (no deadlock), and the trace itself is checked for mutexes still held or awaited after everything ended. Sample inputs (order inversion, recursive read lock) show the model is not vacuous. The client's retry queue (Retries > 0), where a mutex left locked was found (F21), has a specification of its own (RetryQueue.tla: at-least-once, in order, one user acknowledgement, never wedged) with MC, deviations and trace validation of scripted and random outage / slow-ack / mute-server scenarios. The data-race clause is outside what a TLA+ specification decides: the same programs also run under the race detector as a side oracle.",
+    "text": "Every mutex of the library is instrumented (an instrumented copy of internal/sync/sync.go applied with go's -overlay at build time, reporting through internal/vhook; /repo's file is untouched); randomly generated concurrent programs (2..16 goroutines, 34 kinds of operations over server, namespace, socket, manager and adapter, operations issued from event, acknowledgement, connection and disconnect handlers too, GOMAXPROCS 1/2/4/16, injected yields) run against a real server with real clients under a watchdog. The recorded Lock/RLock/Unlock/RUnlock sequences of every goroutine stretch that held two locks at once become the programs of Locks.tla; TLC runs every pair of programs of a scenario (also a program against itself) through all interleavings under sync.Mutex / sync.RWMutex semantics with writer preference and checks that somebody can always move (no deadlock), and the trace itself is checked for mutexes still held or awaited after everything ended. Sample inputs (order inversion, recursive read lock) show the model is not vacuous. The client's retry queue (Retries > 0), where a mutex left locked was found (F21), has a specification of its own (RetryQueue.tla: at-least-once, in order, one user acknowledgement, never wedged) with MC, deviations and trace validation of scripted and random outage / slow-ack / mute-server scenarios. The data-race clause is outside what a TLA+ specification decides: the same programs also run under the race detector as a side oracle.",
     "note": "Partial: deadlocks through channels / WaitGroups are covered only by the watchdog; potential deadlocks are reported without happens-before pruning; data races: race detector only.",
     "technique": "TLA+/TLC model checking of lock programs recorded from the implementation (trace -> specification input) + watchdog; race detector as side oracle",
     "design_ref": "DESIGN.md 4.12, 5 (C16)",
